@@ -75,7 +75,7 @@ class Checker:
         an undefined name, an unmodelled statement - the honest verdict is *undecided*: the code may
         well be right, written in an idiom outside the modelled fragment."""
         if not ok and not undecided:
-            why = opaque_reason(detail, terms)
+            why = opaque_reason(detail, terms) or opaque_reason(construct)
             if why:
                 undecided = True
                 detail = (f"NOT DECIDED - the analysis met a construct it does not model ({why}); "
